@@ -731,6 +731,7 @@ package biscuit
 //@ loop 8 invariant errsC: forall k int :: { errs[k] } 0 <= k && k < len(errs) ==> errs[k] != nil
 //@ loop 8 invariant facts: factsGrown(*v.world.facts, old(*v.world.facts))
 //@ loop 8 invariant worlds: worldsGrown(v.block_worlds, old(v.block_worlds)) && worldsGrownInLoop(v.block_worlds, pre(v.block_worlds))
+//@ loop 8 invariant counted[C04]: len(v.block_worlds) == old(len(v.block_worlds)) + #i
 //@ loop 9 modifies *block_world.facts, spare(*block_world.facts), *v.symbols, spare(*v.symbols)
 //@ loop 9 invariant wf: authWF(v)
 //@ loop 9 invariant content: contentWF(v.biscuit)
@@ -776,6 +777,14 @@ package biscuit
 //@ loop 13 modifies elems(errMsg)
 //@ loop 13 invariant len(errMsg) == len(errs) && fresh(arr(errMsg)) && (forall k int :: { errs[k] } 0 <= k && k < len(errs) ==> errs[k] != nil)
 //@ ensures allow_needed[C04]: err == nil ==> (exists p int :: { v.policies[p] } 0 <= p && p < len(v.policies) && v.policies[p].Kind == PolicyKindAllow)
+// Check failure takes precedence over the policy result (C04): a policy verdict - the
+// result of the first matching policy, or 'no matching policy' - is handed out only when
+// no check has failed and the checks of every block have been evaluated (one block
+// world is recorded per block), wherever in the function such a return statement stands;
+// a collected check failure is always reported as an error.
+//@ ensures retval_policyResult__only_after_every_check_passed[C04]: len(errs) == 0 && policyMatched && len(v.block_worlds) == old(len(v.block_worlds)) + len(v.biscuit.blocks)
+//@ ensures retval_ErrNoMatchingPolicy__only_after_every_check_passed[C04]: len(errs) == 0 && !policyMatched && len(v.block_worlds) == old(len(v.block_worlds)) + len(v.biscuit.blocks)
+//@ ensures success_only_after_every_block[C04]: err == nil ==> len(v.block_worlds) == old(len(v.block_worlds)) + len(v.biscuit.blocks)
 //@ ensures within_limits[C11]: err == nil ==> len(*v.world.facts) < v.world.runLimits.maxFacts
 //@ ensures rules_reset[C03 C04 C12]: err == nil ==> len(v.world.rules) == 0
 //@ ensures keeps_wf: err != datalog.ErrWorldRunLimitTimeout ==> authWF(v)
